@@ -628,7 +628,7 @@ pub fn share_name() -> BoxedStrategy<AName> {
     prop_oneof![
         1 => Just(AName(vec![])),
         4 => vec(select(pool.clone()), 1..=4).prop_map(|v| AName(v.into_iter().map(|s| Bytes(s.as_bytes().to_vec())).collect())),
-        6 => (vec(select(vec!["a", "b", "www", "c"]), 0..=2), select(vec![vec!["example", "com"], vec!["com"], vec!["example", "org"], vec!["b", "example", "com"], vec!["local"], vec!["_tcp", "local"], vec!["_srv", "_tcp", "local"], vec!["Local"]]), proptest::option::weighted(0.15, select(vec!["a", "x"])))
+        6 => (vec(select(vec!["a", "b", "www", "c", "a", "b", "www", "c", "A", "WWW"]), 0..=2), select(vec![vec!["example", "com"], vec!["com"], vec!["example", "org"], vec!["b", "example", "com"], vec!["local"], vec!["_tcp", "local"], vec!["_srv", "_tcp", "local"], vec!["Local"], vec!["Example", "COM"], vec!["example", "Com"], vec!["_TCP", "local"]]), proptest::option::weighted(0.15, select(vec!["a", "x"])))
             .prop_map(|(lead, tail, extra)| {
                 let mut v: Vec<&str> = lead;
                 v.extend(tail);
